@@ -545,6 +545,60 @@ def narrowing_sites(ctx, bodies):
     return out
 
 
+def reachable_bodies(ctx, roots):
+    """hand-written crate-local bodies reachable from `roots` through resolved calls (closures included with their parents)"""
+    seen, order, stack = set(), [], [b for b in roots if b is not None]
+    while stack:
+        b = stack.pop()
+        if b['did'] in seen:
+            continue
+        seen.add(b['did'])
+        order.append(b)
+        for c in ctx.local_callees(b):
+            if c['did'] not in seen and ctx.facts.is_hand_written(c):
+                stack.append(c)
+    return order
+
+
+def numcast_f64_sites(ctx, bodies):
+    """NumCast::from(x) with x a NON-constant f64 (or f32 -> narrower is impossible): the target is the generic element type,
+    which may be narrower than f64.  Literal / named-constant arguments are roundings of constants and are not listed."""
+    out = []
+
+    def visit(root, b):
+        def f(n):
+            if n.get('k') == 'Call' and n.get('fn') and callee_key(n['fn']) == 'num_traits::NumCast::from':
+                a = (n.get('args') or [{}])[0]
+                inner = a
+                while isinstance(inner, dict) and inner.get('k') in ('Scope', 'Coerce', 'Borrow', 'Deref') and inner.get('e'):
+                    inner = inner['e']
+                if a.get('ty', '').lstrip('&') == 'f64' and inner.get('k') not in ('Lit', 'Const', 'NamedConst'):
+                    out.append((strip_generics(root['path']), 'NumCast::from(non-constant f64) to %s' % n.get('ty', '?'), n.get('sp')))
+        walk(b.get('thir'), f)
+        for c in ctx.facts.children.get(b['did'], []):
+            if c['def_kind'] == 'Closure':
+                visit(root, c)
+    for b in bodies:
+        if b is not None:
+            visit(b, b)
+    return out
+
+
+def narrowing_budget(ctx, pfx, anchor, roots, allowed, why, sp=None):
+    """Conversion hygiene over everything reachable from `roots`: the number of float-narrowing conversions (to_f32 / elem / convert /
+    `as f32` on generic or wider values) and of NumCast::from(non-constant f64) is at most what was confirmed by reading on the
+    reference tree (`allowed` = {'narrow': n, 'numcast': m}); each of those is a diagnostics-path conversion to f32 or an
+    f64 -> element-type read-back that the specification of the property already accounts for."""
+    bodies = reachable_bodies(ctx, roots)
+    ns = narrowing_sites(ctx, bodies)
+    nc = numcast_f64_sites(ctx, bodies)
+    ok = len(ns) <= allowed.get('narrow', 0) and len(nc) <= allowed.get('numcast', 0)
+    ctx.check(pfx + '.no_narrowing', anchor, 'precision', ok,
+              expected='at most %d narrowing conversion(s) and %d f64->element read-back(s) on this path (those confirmed on the reference tree)' % (allowed.get('narrow', 0), allowed.get('numcast', 0)),
+              found='; '.join('%s: %s at %s' % x for x in ns + nc) or 'none', sp=sp, why=why)
+    return ns, nc
+
+
 # ---------------------------------------------------------------------- autodiff wiring
 
 GRAPH_OPTS = {'graph_cuts_visible': True}
